@@ -754,7 +754,7 @@ func VerifC19EndToEnd() { verifCheckEndToEnd(verifEndToEndBounds()) }
 // VerifC19EndToEnd3 (thorough): the same for files of up to three entries in which every field is
 // absent or given with a non-empty value (the empty values are covered, for three entries, by
 // VerifC19Load composed with VerifC19Decide).
-func VerifC19EndToEnd3() { verifCheckEndToEnd(verifBounds{maxEntries: 3, maxPerms: 2, plain: true}) }
+func VerifC19EndToEnd3() { verifCheckEndToEnd(verifBounds{maxEntries: 3, maxPerms: 1, plain: true}) }
 
 func verifCheckEndToEnd(b verifBounds) {
 	verifPanicsAreViolations()
